@@ -3,6 +3,7 @@ package c03
 
 import (
 	"fmt"
+	"go/constant"
 	"go/types"
 	"strings"
 
@@ -113,6 +114,8 @@ func run(c *props.Ctx) {
 	round1(c)
 	elemLaws(c)
 	neighbourOps(c, cfg)
+	neighbourTable(c)
+	fill1(c, fns)
 	renum1(c, fns)
 
 	if len(p.Controls) > 0 {
@@ -245,6 +248,85 @@ func verifControlShapeBadCond(m modeling.Mesh, attribute string, amount vector3.
 
 // neighbourOps: NEIGH-1..4 for the connectivity-based single-attribute operations.
 // renum1: renumber tables hand out ids in the order the attribute arrays are compacted.
+// neighbourTable: NEIGH-7 — the vertex neighbour table links what the topology says is connected.
+func neighbourTable(c *props.Ctx) {
+	p := c.P
+	mp := p.Pkg("modeling")
+	if mp == nil {
+		return
+	}
+	kinds := map[int64]eng.TopoKind{}
+	for _, e := range []struct {
+		name string
+		n    int64
+	}{{"TriangleTopology", 3}, {"QuadTopology", 4}, {"LineTopology", 2}, {"PointTopology", 1}, {"LineStripTopology", 0}, {"LineLoopTopology", 0}} {
+		o, ok := mp.Types.Scope().Lookup(e.name).(*types.Const)
+		if !ok {
+			c.R.Failf("anchor constant modeling.%s not found", e.name)
+			continue
+		}
+		k, exact := constant.Int64Val(o.Val())
+		if !exact {
+			c.R.Failf("anchor constant modeling.%s is not an integer", e.name)
+			continue
+		}
+		kinds[k] = eng.TopoKind{Name: e.name, N: e.n}
+	}
+	fn := p.Func("modeling", "Mesh.VertexNeighborTable")
+	if fn == nil {
+		c.R.Failf("anchor modeling.Mesh.VertexNeighborTable not found")
+		return
+	}
+	res, und := eng.AnalyseNeighbourTable(fn, kinds, mc.ModelingPath)
+	name := p.FuncName(fn)
+	per := map[string]int{}
+	for _, f := range res.Findings {
+		per[f.Tag]++
+		construct := fmt.Sprintf("%s#%s#%d", name, f.Tag, per[f.Tag])
+		pos := p.Pos(ssau.PosOf(f.At))
+		if f.OK {
+			c.R.Hold(f.Rule, construct, pos, f.Detail, "form: "+res.Form)
+		} else {
+			c.R.Violate(f.Rule, construct, pos, f.Detail, "form: "+res.Form)
+		}
+	}
+	for i, u := range und {
+		c.R.Undecide("NEIGH-7", fmt.Sprintf("%s#undecided#%d", name, i+1), p.Pos(fn.Pos()), u)
+	}
+	c.R.Floor("NEIGH-7", 6)
+}
+
+// fill1: FILL-1 — the zero-fill of an attribute only one operand of Append carries runs for the other operand's
+// vertex count (shared with C02: a wrong count also shifts the per-corner content of every later vertex).
+func fill1(c *props.Ctx, fns []*ssa.Function) {
+	p := c.P
+	helper := p.Func("modeling", "appendData")
+	if helper == nil {
+		c.R.Note("modeling.appendData not present: FILL-1 has no instance")
+		return
+	}
+	sites := eng.FillRules(helper, nil, mc.ModelingPath)
+	n := 0
+	per := map[string]int{}
+	for _, s := range sites {
+		if s.Rule != "FILL-1" || p.IsControl(s.Fn.Pos()) {
+			continue
+		}
+		n++
+		k := p.FuncName(s.Fn) + "→" + s.Rule
+		per[k]++
+		construct := fmt.Sprintf("%s#%d", k, per[k])
+		if s.OK {
+			c.R.Hold(s.Rule, construct, p.Pos(ssau.PosOf(s.At)), s.Detail)
+		} else {
+			c.R.Violate(s.Rule, construct, p.Pos(ssau.PosOf(s.At)), s.Detail)
+		}
+	}
+	if n < 2 {
+		c.R.Undecide("FILL-1", p.FuncName(helper)+"→FILL-1", p.Pos(helper.Pos()), fmt.Sprintf("%d zero-fill(s) recognised in the attribute-combining helper, two are expected", n))
+	}
+}
+
 func renum1(c *props.Ctx, fns []*ssa.Function) {
 	p := c.P
 	per := map[string]int{}
